@@ -122,6 +122,17 @@ func (e *Exec) callWith0(f *frame, in ssa.Instruction, cc *ssa.CallCommon, fnv V
 	case *ssa.Builtin:
 		return e.builtin(f, in, cv, args, rt, h, g)
 	case *ssa.Function:
+		if cv.String() == "regexp.MatchString" && len(cc.Args) == 2 {
+			// a constant pattern is translated exactly (gore.go); other patterns keep the uninterpreted contract
+			if c, ok := cc.Args[0].(*ssa.Const); ok && c.Value != nil {
+				if re, ok := tryGoRegexToSMT(constant.StringVal(c.Value)); ok {
+					e.eng.assumes["regexp.MatchString with a constant pattern is the exact regular-expression membership (Go RE2 syntax translated to SMT-LIB by the engine)"] = true
+					tup := rt.(*types.Tuple)
+					m := Val{T: "(str.in_re " + args[1].T + " " + re + ")", Typ: tup.At(0).Type()}
+					return Val{Tup: []Val{m, {T: e.zero(tup.At(1).Type()), Typ: tup.At(1).Type()}}, Typ: rt}, h, g
+				}
+			}
+		}
 		return e.callStatic(f, in, cv, args, nil, rt, h, g)
 	}
 	if fnv.Clo != nil {
